@@ -182,11 +182,15 @@ WRAP = {"eb_add": "vf_x16_eb_add", "eb_dbl": "vf_x16_eb_dbl"}
 class Case(object):
     """with Case(ctx, key, desc) as go: if go: ...   (journal, watchdog, monitor violations)"""
 
-    def __init__(self, ctx, key, desc, nontrivial=True, budget=None):
-        self.ctx, self.key, self.desc, self.nt, self.budget = ctx, key, desc, nontrivial, budget
+    def __init__(self, ctx, key, desc, nontrivial=True, budget=None, setup=False):
+        self.ctx, self.key, self.desc, self.nt, self.budget, self.setup = ctx, key, desc, nontrivial, budget, setup
 
     def __enter__(self):
-        return self.ctx.begin(self.key, self.desc, nontrivial=self.nt, budget=self.budget)
+        go = self.ctx.begin(self.key, self.desc, nontrivial=self.nt, budget=self.budget)
+        if not go and self.setup and self.ctx.only is not None and self.key not in self.ctx.skip:
+            # replay of another key: set-up steps (parameter selection, precomputed tables) still have to happen
+            return True
+        return go
 
     def __exit__(self, et, ev, tb):
         self.ctx.end()
@@ -373,10 +377,51 @@ class FieldPart(object):
                     if self.no_error(R.call("fb_rdc_basic", self.c, self.dv)):
                         self.out_fb(self.c, 0)
 
+    def getters(self, fld, F):
+        """the polynomial getters against the model: reduction exponents, trace positions, sqrt(z) and its table"""
+        ctx, R, B, m = self.ctx, self.R, self.B, self.m
+        f = F.f
+        ints = R.mem(12, 0)
+        try:
+            with Case(ctx, "fb_poly_get|%s" % fld, [hx(f)], nontrivial=False) as go:
+                if go:
+                    r = R.call("fb_poly_get")
+                    ctx.check(not r.caught and B.fb_get(r.r) | (1 << m) == f, None, {"got": hx(B.fb_get(r.r))})
+            with Case(ctx, "fb_poly_get_rdc|%s" % fld, [hx(f)], nontrivial=False) as go:
+                if go:
+                    r = R.call("fb_poly_get_rdc", ints, ints + 4, ints + 8)
+                    got = [R.rd_int(ints + 4 * i) for i in range(3)]
+                    mid = sorted((i for i in range(1, m) if (f >> i) & 1), reverse=True)
+                    exp = (mid + [0, 0, 0])[:3] if len(mid) in (1, 3) else None
+                    ctx.check(not r.caught and (exp is None or got == exp), None, {"got": got, "exp": exp})
+            with Case(ctx, "fb_poly_get_trc|%s" % fld, [hx(f)], nontrivial=False) as go:
+                if go:
+                    r = R.call("fb_poly_get_trc", ints, ints + 4, ints + 8)
+                    got = [R.rd_int(ints + 4 * i) for i in range(3)]
+                    pos = [i for i in range(m) if (F.trace_mask() >> i) & 1]
+                    exp = (pos + [-1, -1, -1])[:3] if len(pos) <= 3 else None
+                    ctx.check(not r.caught and (exp is None or got == exp), None, {"got": got, "exp": exp})
+            if R.has("fb_poly_get_srz"):
+                with Case(ctx, "fb_poly_get_srz|%s" % fld, [hx(f)], nontrivial=False) as go:
+                    if go:
+                        r = R.call("fb_poly_get_srz")
+                        srz = F.sqrt(2)
+                        ctx.check(not r.caught and r.r != 0 and B.fb_get(r.r) == srz, None,
+                                  {"got": hx(B.fb_get(r.r)) if r.r else None, "exp": hx(srz)})
+                        for i in (0, 1, 2, 3, 0x80, 0xFF, self.rng.randrange(256)):
+                            t = R.call("fb_poly_tab_srz", i)
+                            if t.r:
+                                ctx.check(B.fb_get(t.r) == F.mul(srz, i), ctx.cur_key + "|table",
+                                          {"i": i, "got": hx(B.fb_get(t.r))})
+        finally:
+            R.free(ints)
+
     def run_field(self, fld, F, N):
         ctx, R, B, rng, m = self.ctx, self.R, self.B, self.rng, self.m
         F2 = GF2m2(F)
         f = F.f
+        if ctx.shard == ctx.nshards - 1:
+            self.getters(fld, F)
         muls = [fn for fn in ("fb_mul_basic", "fb_mul_integ", "fb_mul_lodah", "fb_mul_karat", "fb_mul") if self.has(fn)]
         sqrs = [fn for fn in ("fb_sqr_basic", "fb_sqr_integ", "fb_sqr_quick", "fb_sqr") if self.has(fn)]
         rdcs = [fn for fn in ("fb_rdc_basic", "fb_rdc_quick", "fb_rdc") if self.has(fn)]
@@ -586,7 +631,7 @@ class FieldPart(object):
                     if len(itr_tabs) < 3 and bexp not in itr_tabs:
                         tab = R.mem(B.fbsz * self.K["RLC_FB_TABLE_MAX"], R.poison)
                         with Case(ctx, "fb_itr_pre_quick|%s|%s" % (fld, "b<0" if bexp < 0 else "b>=0"), [bexp],
-                                  budget=600) as go:
+                                  budget=600, setup=True) as go:
                             if go and self.no_error(R.call("fb_itr_pre_quick", tab, bexp & 0xFFFFFFFF)):
                                 itr_tabs[bexp] = tab
                     if not itr_tabs:
@@ -821,7 +866,7 @@ def run_field_part(ctx, R, B):
 
     def activate(nm, v):
         ok = False
-        with Case(ctx, "fb_param_set|%s" % nm, [v], nontrivial=False, budget=600) as go:
+        with Case(ctx, "fb_param_set|%s" % nm, [v], nontrivial=False, budget=600, setup=True) as go:
             if go:
                 r = R.call("fb_param_set", v)
                 ok = ctx.check(not r.caught, None, {"err": r.err})
@@ -1506,7 +1551,7 @@ class CurvePart(PointIO):
 def open_curves(ctx, R, B):
     """instantiate every binary curve of this build: [(Cv)]"""
     out = []
-    with Case(ctx, "eb_param_set|enumerate", {}, nontrivial=False, budget=600) as go:
+    with Case(ctx, "eb_param_set|enumerate", {}, nontrivial=False, budget=600, setup=True) as go:
         ids = curve_ids(R) if go else []
     for nm, v in ids:
         out.append((nm, v))
@@ -1586,7 +1631,9 @@ class MulPart(PointIO):
             return -rng.randrange(1, n)
         if c == 13:     # n <= k < 2^bits(n)
             return rng.randrange(n, 1 << cv.nbits)
-        if c == 14:     # bits(n) < bits(k) <= m
+        if c == 14:     # bits(n) < bits(k) <= m (empty when n has m bits)
+            if cv.nbits >= m:
+                return rng.randrange(n, 1 << cv.nbits)
             return rng.getrandbits(m) | (1 << rng.randrange(cv.nbits, m))
         if c == 15:     # just beyond the field size: m < bits <= m + 7 (passes the length checks of the recodings)
             return rng.getrandbits(m + 7) | (1 << rng.randrange(m, m + 7))
@@ -1808,7 +1855,7 @@ class MulPart(PointIO):
         B.eb_fill(tab, R.poison, size)
         ok = False
         with Case(ctx, "%s|%s|%s" % (impl_of(R, pre), cv.tag, cv.pcls(d)), {"P": dshow(d)},
-                  nontrivial=cv.pcls(d) != "inf", budget=600) as go:
+                  nontrivial=cv.pcls(d) != "inf", budget=600, setup=True) as go:
             if go:
                 self.put(cv, self.p, cv.aff(d), "B")
                 res = R.call(pre, tab, self.p)
@@ -2069,3 +2116,20 @@ def run(ctx, part):
         run_mul_part(ctx, R, B)
     ctx.note("functions_exercised", sorted(R.fn_seen))
     ctx.note("error_codes_seen", {str(k): v for k, v in R.err_codes.items()})
+
+
+def finish(cov):
+    """function-coverage accounting against the API inventory of the design (DESIGN.md 10)"""
+    inv = os.path.join(os.path.dirname(KNOWN) if not os.environ.get("VF_KNOWN") else
+                       os.path.dirname(os.path.dirname(os.path.dirname(os.path.abspath(__file__)))),
+                       "design", "api_inventory.json")
+    try:
+        fns = json.load(open(inv))["functions"]
+    except (OSError, ValueError, KeyError):
+        return
+    scope = sorted(k for k, v in fns.items() if v.get("property") == "C16")
+    seen = set(cov.get("functions_exercised", []))
+    absent = set(cov.get("functions_not_built", []))
+    cov["functions_in_scope"] = len(scope)
+    cov["functions_in_scope_exercised"] = len([f for f in scope if f in seen])
+    cov["functions_uncovered"] = [f for f in scope if f not in seen and f not in absent]
